@@ -497,6 +497,13 @@ func (c *Ctx) trailingRule(rule string, pl *ssa.Function, lineAlloc *ssa.Alloc, 
 			if sep, ok := constString(call.Call.Args[1]); ok && sep == " :" {
 				split, isIdx = call, true
 			}
+		default:
+			// a module-local equivalent of strings.Cut
+			if cal := call.Call.StaticCallee(); cal != nil && c.InModuleFn(cal) && len(call.Call.Args) == 2 && c.isCutLike(cal) {
+				if sep, ok := constString(call.Call.Args[1]); ok && sep == " :" {
+					split, isCut = call, true
+				}
+			}
 		}
 	}
 	for _, h := range hosts.Order {
@@ -800,7 +807,26 @@ func runC10(c *Ctx) {
 	r.Rule("R1", "the per-line charge is 2*Second + Duration(chars)*Second/120")
 	r.Rule("R2", "penalty := penalty + charge - (Now - last); stored 0 on the penalty < 0 branch; last := Now on every path; the two fields are written only here and in the constructor")
 	r.Rule("R3", "the function returns the charge exactly on the penalty > 10*Second edge, 0 otherwise")
+	r.Rule("R5", "flood protection is on exactly when the application left Config.Flood false: the library itself never stores to Config.Flood (outside constructing a fresh Config)")
 	r.Rule("R4", "write() calls the rate limiter with len of the string it then writes, waits for exactly the returned value iff it is non-zero, before the socket write; every timer/sleep in write() is control-dependent on Config.Flood being false")
+	{
+		nFl := 0
+		for _, fn := range c.clientFuncs() {
+			funcInstrs(fn, func(in ssa.Instruction) {
+				st, ok := in.(*ssa.Store)
+				if !ok {
+					return
+				}
+				fv, base := fieldOf(st.Addr)
+				if fv != c.A.CfgFlood || c.allOriginsLocalAlloc(base, fn) {
+					return
+				}
+				nFl++
+				r.Add("R5", "flood-store:"+c.FuncKey(fn), c.InstrPos(st), c.FuncKey(fn), "the library does not change the application's flood-protection setting", false, "store to Config.Flood in "+c.FuncKey(fn))
+			})
+		}
+		r.Add("R5", "no-flood-store", "-", "", "no store to Config.Flood of an existing Config anywhere in package client", nFl == 0, fmt.Sprintf("%d stores", nFl))
+	}
 	// the rate limiter: the client method taking the line length and returning a time.Duration that reads the clock
 	// (by shape, so that renaming it or moving it onto an embedded struct does not lose it)
 	var rl *ssa.Function
@@ -1363,4 +1389,97 @@ func (c *Ctx) parserTrailingRule(rule string) {
 	}
 	r.Funcs[c.FuncKey(pl)] = true
 	c.trailingRule(rule, pl, lineAlloc, pl.Params[0])
+}
+
+// isCutLike: fn(s, sep string) (before, after string, found bool) with the
+// body of strings.Cut: i := strings.Index(s, sep); found: s[:i], s[i+len(sep):],
+// true on the i >= 0 edge; otherwise s, "", false.
+func (c *Ctx) isCutLike(fn *ssa.Function) bool {
+	if fn == nil || fn.Blocks == nil || len(fn.Params) != 2 || fn.Signature.Results().Len() != 3 || fn.Signature.Recv() != nil {
+		return false
+	}
+	for _, p := range fn.Params {
+		if !isStringType(p.Type()) {
+			return false
+		}
+	}
+	p0, p1 := ssa.Value(fn.Params[0]), ssa.Value(fn.Params[1])
+	var idx *ssa.Call
+	nIdx := 0
+	funcInstrs(fn, func(in ssa.Instruction) {
+		if call, ok := in.(*ssa.Call); ok && calleeName(&call.Call) == "strings.Index" && call.Call.Args[0] == p0 && call.Call.Args[1] == p1 {
+			idx = call
+			nIdx++
+		}
+	})
+	if nIdx != 1 {
+		return false
+	}
+	found := func(b *ssa.BasicBlock) bool {
+		for _, cd := range CondsAt(b) {
+			cd = unwrapNot(cd)
+			bo, ok := cd.V.(*ssa.BinOp)
+			if !ok || bo.X != ssa.Value(idx) {
+				continue
+			}
+			k, okK := constInt(bo.Y)
+			if !okK {
+				continue
+			}
+			switch {
+			case bo.Op == token.GEQ && k == 0 && cd.True, bo.Op == token.LSS && k == 0 && !cd.True,
+				bo.Op == token.NEQ && k == -1 && cd.True, bo.Op == token.EQL && k == -1 && !cd.True,
+				bo.Op == token.GTR && k == -1 && cd.True, bo.Op == token.LEQ && k == -1 && !cd.True:
+				return true
+			}
+		}
+		return false
+	}
+	nT, nF, bad := 0, 0, false
+	funcInstrs(fn, func(in ssa.Instruction) {
+		rt, ok := in.(*ssa.Return)
+		if !ok {
+			return
+		}
+		if len(rt.Results) != 3 {
+			bad = true
+			return
+		}
+		r0, r1, r2 := retVal(rt, 0), retVal(rt, 1), retVal(rt, 2)
+		k, isK := r2.(*ssa.Const)
+		if !isK || k.Value == nil {
+			bad = true
+			return
+		}
+		if k.Value.String() == "true" {
+			s0, ok0 := r0.(*ssa.Slice)
+			s1, ok1 := r1.(*ssa.Slice)
+			if !ok0 || !ok1 || s0.X != p0 || s1.X != p0 || s0.Low != nil || s0.High != ssa.Value(idx) || s1.High != nil || s1.Low == nil || !found(rt.Block()) {
+				bad = true
+				return
+			}
+			bo, okB := s1.Low.(*ssa.BinOp)
+			if !okB || bo.Op != token.ADD || bo.X != ssa.Value(idx) {
+				bad = true
+				return
+			}
+			ln, okL := bo.Y.(*ssa.Call)
+			if !okL {
+				bad = true
+				return
+			}
+			if b, isB := ln.Call.Value.(*ssa.Builtin); !isB || b.Name() != "len" || ln.Call.Args[0] != p1 {
+				bad = true
+				return
+			}
+			nT++
+		} else {
+			if e, okE := constString(r1); r0 != p0 || !okE || e != "" {
+				bad = true
+				return
+			}
+			nF++
+		}
+	})
+	return !bad && nT >= 1 && nF >= 1
 }
